@@ -84,8 +84,35 @@ def warm(rules_list, pred_list):
 '''
 
 
+UNTRACED = r'''
+import contextlib as _ctx
+
+
+def untraced():
+  """Once the harness has turned its symbolic choice into a concrete value (by branching on it),
+  nothing symbolic flows into the rest of the path: that rest is executed natively instead of
+  under CrossHair's tracer (concolic execution of a concrete remainder).  Outside CrossHair
+  (replays) this is a no-op."""
+  try:
+    from crosshair import tracers as _t
+    if _t.is_tracing():
+      return _t.NoTracing()
+  except Exception:
+    pass
+  return _ctx.nullcontext()
+
+
+def concretise(m, n):
+  """turn a symbolic integer 0 <= m < n into a concrete one by branching on it (n paths)"""
+  for j in range(n - 1):
+    if m == j:
+      return j
+  return n - 1
+'''
+
+
 def prelude(small_bulk=True):
-  return 'SMALL_BULK_TABLE = %r\n' % small_bulk + COMPILE_PRELUDE
+  return 'SMALL_BULK_TABLE = %r\n' % small_bulk + COMPILE_PRELUDE + UNTRACED
 
 
 def reject_kernel(name, variants):
@@ -105,10 +132,12 @@ def k_%(n)s(i: int) -> bool:
   pre: 0 <= i < %(count)d
   post: _
   """
-  kind, what = compile_outcome(RULES_%(n)s[i], PREDS_%(n)s[i])
-  if kind == 'internal':
-    return False
-  return (kind == 'diagnostic') == EXPECT_%(n)s[i]
+  j = concretise(i, %(count)d)
+  with untraced():
+    kind, what = compile_outcome(RULES_%(n)s[j], PREDS_%(n)s[j])
+    if kind == 'internal':
+      return False
+    return (kind == 'diagnostic') == EXPECT_%(n)s[j]
 ''' % dict(n=name, texts=[v[0] for v in variants], preds=[v[1] for v in variants],
            expect=[bool(v[2]) for v in variants], count=len(variants))
   return 'k_' + name, src
